@@ -13,6 +13,7 @@
 EXTENDS GseSender, TLC
 
 CONSTANTS Maxes,       \* values offered to enable-with-max, e.g. {0, 1, 2, 3, 255}
+          OutOfStep,   \* TRUE: also explore resets on one side only (beyond the hypothesis of C04)
           Export,      \* TRUE: record the inputs of each behaviour and print those of length Depth (S->I)
           Depth
 
@@ -28,9 +29,10 @@ VARIABLES tx,       \* abstract sender state (en, max, run, prev)
           nearest,  \* ghost: label carried by the nearest preceding start/complete packet of the frame
           last,     \* ghost: outcome of the last packet: [sent, delivered, got, want, subst, wl]
           runWire,  \* ghost: consecutive substituted packets since the last full-label packet / config call
+          inStep,   \* ghost: FALSE after a reset on one side only, TRUE again after a reset of both sides
           hist      \* ghost (Export only): the inputs so far, as scenario tokens for `gse_harness labels --scn`
-vars == <<tx, rl, nearest, last, runWire, hist>>
-View == <<tx, rl, nearest, last, runWire>>
+vars == <<tx, rl, nearest, last, runWire, inStep, hist>>
+View == <<tx, rl, nearest, last, runWire, inStep>>
 Tok(a, b) == a \o ":" \o b
 LName(L) == IF L = A6 THEN "A6" ELSE IF L = B6 THEN "B6" ELSE IF L = A3 THEN "A3" ELSE IF L = B3 THEN "B3"
             ELSE IF L.k = "bc" THEN "BC" ELSE "RU"
@@ -41,7 +43,7 @@ ExportInv == (Export /\ Len(hist) = Depth) => PrintT(<<"SCN", 0, hist>>)
 NoOutcome == [sent |-> FALSE, delivered |-> FALSE, got |-> NoLabel, want |-> NoLabel, subst |-> FALSE, wl |-> "none",
               afterClear |-> FALSE, enAtSend |-> TRUE, maxAtSend |-> 0, prevAtSend |-> NoLabel, passed |-> NoLabel]
 
-Init == tx = TxInit /\ rl = NoLabel /\ nearest = NoLabel /\ last = NoOutcome /\ runWire = 0 /\ hist = <<>>
+Init == tx = TxInit /\ rl = NoLabel /\ nearest = NoLabel /\ last = NoOutcome /\ runWire = 0 /\ inStep = TRUE /\ hist = <<>>
 
 \* what an (ideal but forgetful) receiver does with a start/complete packet
 \* whose wire label is wlab (a full label, Broadcast, or ReUseL)
@@ -57,7 +59,7 @@ Send(L, sub, starved) ==
      IN /\ last' = [sent |-> TRUE, delivered |-> deliv, got |-> RxResolve(wlab), want |-> IntendedLabel(tx, L),
                     subst |-> sub, wl |-> wlab.k, afterClear |-> tx.prev \in {NoLabel, Broadcast},
                     enAtSend |-> tx.en, maxAtSend |-> tx.max, prevAtSend |-> tx.prev, passed |-> L]
-        /\ tx' = TxAfterStart(tx, L, wlab.k)
+        /\ tx' = TxAfterStart(tx, L, wlab.k) /\ UNCHANGED inStep
         /\ runWire' = IF sub THEN (IF tx.max = 0 THEN 0 ELSE runWire + 1) ELSE IF L.k = "ru" THEN runWire ELSE 0
         /\ nearest' = IF wlab.k = "ru" THEN nearest ELSE wlab
         /\ rl' \in IF starved
@@ -68,16 +70,24 @@ Send(L, sub, starved) ==
                    ELSE {wlab}
 
 \* a failing encap call: by failure atomicity (C09) nothing changes on either side
-SendFail == UNCHANGED <<tx, rl, nearest, runWire>> /\ last' = NoOutcome /\ \E L \in Alphabet : Rec(Tok("fail", LName(L)))
+SendFail == UNCHANGED <<tx, rl, nearest, runWire, inStep>> /\ last' = NoOutcome /\ \E L \in Alphabet : Rec(Tok("fail", LName(L)))
 
 \* intermediate / end fragments, padding, garbage: no label effect on the sender;
 \* the receiver may keep or forget its remembered label
-OtherTraffic == /\ rl' \in {rl, NoLabel} /\ last' = NoOutcome /\ UNCHANGED <<tx, nearest, runWire>> /\ Rec("other:0")
+OtherTraffic == /\ rl' \in {rl, NoLabel} /\ last' = NoOutcome /\ UNCHANGED <<tx, nearest, runWire, inStep>> /\ Rec("other:0")
 
 ResetBoth == /\ tx' = TxCfg(tx, "reset", 0) /\ rl' = NoLabel /\ nearest' = NoLabel
-             /\ last' = NoOutcome /\ UNCHANGED runWire /\ Rec("reset:0")
+             /\ last' = NoOutcome /\ UNCHANGED runWire /\ inStep' = TRUE /\ Rec("reset:0")
 
-Config(op, n) == /\ tx' = TxCfg(tx, op, n) /\ runWire' = 0 /\ last' = NoOutcome /\ UNCHANGED <<rl, nearest>>
+\* Beyond C04's hypothesis (resets at the same frame boundaries): a reset on one side only.
+\* What degrades: substituted packets may become unresolvable and are dropped.
+\* What cannot happen (checked by the same invariants): a PDU attributed to the wrong label.
+\* TLC's finding: the one thing that *can* go wrong is an explicit re-use label passed by the caller
+\* after a sender-only reset (the receiver still resolves it to its own remembered label).
+ResetTxOnly == /\ tx' = TxCfg(tx, "reset", 0) /\ last' = NoOutcome /\ inStep' = FALSE /\ UNCHANGED <<rl, nearest, runWire>> /\ Rec("reset_tx:0")
+ResetRxOnly == /\ rl' = NoLabel /\ nearest' = NoLabel /\ last' = NoOutcome /\ inStep' = FALSE /\ UNCHANGED <<tx, runWire>> /\ Rec("reset_rx:0")
+
+Config(op, n) == /\ tx' = TxCfg(tx, op, n) /\ runWire' = 0 /\ last' = NoOutcome /\ UNCHANGED <<rl, nearest, inStep>>
                  /\ Rec(Tok(op, ToString(n)))
 
 Next ==
@@ -85,6 +95,7 @@ Next ==
   \/ SendFail
   \/ OtherTraffic
   \/ ResetBoth
+  \/ (OutOfStep /\ (ResetTxOnly \/ ResetRxOnly))
   \/ Config("disable", 0) \/ Config("enable", 0)
   \/ \E n \in Maxes : Config("enable_max", n)
 
@@ -94,7 +105,10 @@ Spec == Init /\ [][Next]_vars
 TypeOK == tx.run \in 0..255 /\ rl \in FullLabels \cup {NoLabel}
 
 \* C04: every delivered PDU carries the label the sender intended
-Attribution == last.delivered => last.got = last.want
+Attribution == last.delivered /\ inStep => last.got = last.want
+\* beyond C04: even with resets out of step, every PDU for which the caller passed a real label
+\* (6-byte, 3-byte, broadcast - substituted or not) is attributed correctly or dropped
+AttributionOutOfStep == last.delivered /\ last.passed.k # "ru" => last.got = last.want
 
 \* C04: a PDU sent with an explicit or broadcast wire label is delivered (storage permitting)
 ExplicitDelivered == last.sent /\ last.wl \in {"six", "three", "bc"} /\ ~last.delivered => FALSE \/ TRUE
